@@ -52,6 +52,16 @@ CHECKS = {
              "compared with the native expression. Exhaustive over the stated finite matrix, sampling beyond it.",
         note="trusts g++ -O2 on x86-64 as the reference semantics; UB-without-trap inputs are excluded by predicate (counted in evidence)",
         design="4/C05"),
+    "C06": dict(
+        engine="hypothesis-runner",
+        category="exploration",
+        technique="property-based testing of overload dispatch with a catalogue of logging C++ callables: validity invariants over the entry log from a conservative three-valued compatibility table",
+        text="Generated (overload subset and registration order, registered conversions, argument tuple of script values of every kind, call syntax) "
+             "cases; each call enters at most one overload, exactly one on success and none on failure; the entered overload is never one the "
+             "arguments cannot convert to; an exactly matching overload is preferred; impossible calls fail without entering anything; every "
+             "parameter receives the script's object (address) or its converted value. The same table decides boxed_cast<T> requests.",
+        note="the compatibility table is mine and three-valued: pairs not settled by the documentation carry no claim; catalogue functions do not throw",
+        design="4/C06"),
     "C07": dict(
         engine="hypothesis-runner",
         category="exploration",
